@@ -62,6 +62,8 @@ def run(ctx):
     poisoned_state_returns_error(ctx, P)
     from rules import c10
     c10.checksum_token_bounded(ctx, P)
+    from rules import stream
+    stream.eof_kind_protocol(ctx, P)
 
 
 def r_panic(ctx, P, only=None, floors=(1800, 1200, 150)):
